@@ -28,6 +28,17 @@ for d in sorted(glob.glob(os.path.join(here, "seeded", pid + "*"))):
         pass
 
 FOCUS = {
+    "8": "Situations that are used in production but easy to forget, pick one that fits the property: multi-node batches "
+         "(SlurmConfig nodes >= 2: srun starts `jade-internal run-jobs` on every node, SLURM_NODEID 0 is the manager, every node runs "
+         "the commands and its own try-submit-jobs); `--no-distributed-submitter`; per-group differences (two or three submission groups "
+         "with different partitions / batch sizes / processes-per-node); `max_nodes` reached exactly; the LAST batch of a group; "
+         "more than 9 batches or jobs (string vs numeric order of batch ids and job ids); `show-status` and `cancel-jobs` issued while "
+         "a compute node is half-way through its round; `resubmit-jobs` more than once; pipelines with three stages; local mode; "
+         "time-based batching where the estimates add up to exactly the limit; jobs killed by a signal (negative return code); "
+         "job names that look like numbers; hooks that fail; reports enabled (events, stats). Files that were touched rarely: "
+         "jade/jobs/job_runner.py, jade/jobs/job_queue.py, jade/hpc/hpc_manager.py, jade/hpc/common.py, jade/jobs/job_submitter.py "
+         "(completion, reports, results summary), jade/jobs/results_summary.py, jade/result.py, jade/models/*.py, "
+         "jade/jobs/pipeline_manager.py, jade/cli/*.py, jade/events.py, jade/resource_monitor.py, jade/utils/*.py.",
     "7": "Places nobody has looked at yet, pick one that fits the property: jade/jobs/job_queue.py, jade/jobs/async_cli_command.py, "
          "jade/jobs/results_aggregator.py (batch-id handling, append paths), jade/jobs/cluster.py (get_status_summary, "
          "iter/lookup helpers, prepare_for_resubmission, _get_job_status / job-state transitions), jade/hpc/hpc_manager.py "
